@@ -134,8 +134,10 @@ RAND_LITERALS = ['"if"', '"else"', '"ab"', '"a"', '"b"', '"abc"', '"0"', '"00"',
                  '"\\""', '"a\\""', '"\\"a"', '"\\\\"', '"a\\\\"']
 
 
-def spec_of_defs(defs, named=False):
-    """named: string literals are declared as named tokens (NAME = "text";) instead of being written inline."""
+def spec_of_defs(defs, named=False, refer="all"):
+    """named: string literals are declared as named tokens (NAME = "text";) instead of being written inline.
+    refer="first": only the first definition is referred to by a rule; the others are declared and used nowhere (they are
+    definitions of the scanner all the same)."""
     lines = ["grammar g;"]
     uses = []
     for i, d in enumerate(defs):
@@ -149,7 +151,7 @@ def spec_of_defs(defs, named=False):
             name = "TK%d" % i
             lines.append("%s = %s;" % (name, d))
             uses.append(name)
-    lines.append("start = %s;" % " ".join(uses))
+    lines.append("start = %s;" % " ".join(uses if refer == "all" else uses[:1]))
     return "\n".join(lines) + "\n"
 
 
@@ -257,8 +259,10 @@ def check(tier):
         sets.append(list(dict.fromkeys(s)))
     # every family twice: literals written inline, and literals declared as named tokens (name and text differ)
     with_lits = [s_ for s_ in sets if any(d.startswith('"') for d in s_)]
-    texts = [spec_of_defs(s_) for s_ in sets] + [spec_of_defs(s_, named=True) for s_ in with_lits]
-    sets = sets + with_lits
+    multi = [s_ for s_ in sets if len(s_) >= 2][: (40 if tier == "quick" else 600)]
+    texts = [spec_of_defs(s_) for s_ in sets] + [spec_of_defs(s_, named=True) for s_ in with_lits] + \
+            [spec_of_defs(s_, named=True, refer="first") for s_ in multi]
+    sets = sets + with_lits + multi
     res = C.hook_map([{"op": "spec_dfa", "text": t} for t in texts], timeout_each=30)
     # one text used as a string in one specification and as a pattern in another, both orders, in ONE process one after the other:
     # each scanner is judged on its own definitions like any other (what an earlier specification was must not matter)
